@@ -22,6 +22,23 @@ SKIP = {("wrap.yaml", False): "Fortran requested without C", ("wrap.yaml", True)
         ("example.yaml", False): "splicer placeholders", ("example.yaml", True): "splicer placeholders"}
 
 
+def _pyinc():
+    import sysconfig
+    inc = []
+    p = sysconfig.get_paths().get("include")
+    if p and os.path.exists(os.path.join(p, "Python.h")):
+        inc.append("-I" + p)
+    else:
+        return []
+    for cand in ("/opt/veriftools/pyvenv/lib/python3.11/site-packages/numpy/_core/include",):
+        if os.path.isdir(cand):
+            inc.append("-I" + cand)
+    return inc
+
+
+PYINC = _pyinc()
+
+
 def run(cmd, cwd):
     r = subprocess.run(cmd, cwd=cwd, stdout=subprocess.PIPE, stderr=subprocess.STDOUT, universal_newlines=True, timeout=180)
     return r.returncode, r.stdout
@@ -99,9 +116,31 @@ def check(inp):
                 if not re.search(r'\b%s\s*\(' % re.escape(fn), ctext):
                     return "module %s binds to the helper function %s which no generated C/C++ file defines (link error)" % (f, fn)
         if "decls" not in inp:
+            # Python extension sources of the upstream corpus against the interpreter's and numpy's headers (syntax only),
+            # where upstream ships the user library's header (regression/run/<name>)
+            base = inp["yaml"][:-5]
+            rundir = os.path.join(F.REPO, "regression", "run", base)
+            if os.path.isdir(rundir) and PYINC:
+                for n in names:
+                    if n.startswith("py") and n.endswith((".c", ".cpp")):
+                        cmd = (["g++", "-std=c++11"] if n.endswith(".cpp") else ["gcc", "-std=c99"])
+                        rc, text = run(cmd + ["-fsyntax-only", "-I.", "-I" + rundir] + PYINC + [n], out)
+                        if rc != 0:
+                            if "No such file or directory" in text:
+                                continue        # a header of the user's library is not available: no verdict
+                            err = [l for l in text.split("\n") if "error" in l][:3]
+                            return "%s rejects the generated Python extension source %s: %s" % (cmd[0], n, " | ".join(err))
             return None
         open(os.path.join(out, "gen.h"), "w").write(user_header(inp))
         cxx = inp.get("language", "c++") != "c"
+        if inp.get("python") and PYINC:
+            for n in names:
+                if n.startswith("py") and n.endswith((".c", ".cpp", ".h", ".hpp")):
+                    cmd = (["g++", "-std=c++11", "-x", "c++"] if n.endswith(("pp",)) else ["gcc", "-std=c99", "-x", "c"])
+                    rc, text = run(cmd + ["-fsyntax-only", "-I."] + PYINC + [n], out)
+                    if rc != 0:
+                        err = [l for l in text.split("\n") if "error" in l][:3]
+                        return "%s rejects the generated Python extension file %s: %s" % (cmd[0], n, " | ".join(err))
         for n in names:
             if n.startswith(("py", "lua")) or n == "setup.py":
                 continue
@@ -183,6 +222,28 @@ def core(skip=()):
                          "void sta(Pt *p +intent(in)+rank(1), int n +implied(size(p)))"], "language": lang, "options": {}}
 
 
+PYDECLS = ["void f1(int *v +rank(1))", "void f2(const char *s)", "int *f3() +dimension(3)", "void f4(std::vector<int> &v +intent(out))",
+           "void f5(double *a +intent(inout)+rank(1))", "int f6(int a, double b = 1.0)", "void f7(char **names +intent(in))",
+           "std::string f8()", "void f9(int *out +intent(out))"]
+PYOPTS = [{}, {"PY_write_helper_in_util": "true"}, {"PY_array_arg": "list"}, {"PY_array_arg": "list", "PY_write_helper_in_util": "true"},
+          {"PY_array_arg": "numpy", "PY_write_helper_in_util": "true"}]
+
+
+def pycore():
+    for lang in ("c++", "c"):
+        for opts in PYOPTS:
+            decls = [d for d in PYDECLS if lang == "c++" or ("std::" not in d and "= " not in d)]
+            o = dict(opts)
+            o["wrap_python"] = "true"
+            yield {"decls": decls, "language": lang, "options": o, "python": True}
+    o = {"wrap_python": "true", "PY_write_helper_in_util": "true"}
+    # (a class returned by value is not supported by the Python wrapper: upstream switches wrap_python off for it)
+    yield {"pre": ["- decl: class Box\n  declarations:\n  - decl: Box()\n  - decl: ~Box()\n  - decl: int size() const\n"
+                   "  - decl: Box *clone() +owner(caller)\n  - decl: void merge(const Box &other)\n"
+                   "  - decl: Box &self()\n"],
+           "decls": ["void takep(const Box *b)", "Box *givep()"], "language": "c++", "options": o, "python": True}
+
+
 def candidates(seed, around=None):
     skip = [list(x) for x in ((around or {}).get("skip") or [])]
     for x in F.corpus():
@@ -190,4 +251,6 @@ def candidates(seed, around=None):
             continue          # recorded known finding: replayed separately by the check
         yield x
     for x in core(skip):
+        yield x
+    for x in pycore():
         yield x
